@@ -11,7 +11,7 @@ reopens on an IH5MFRecord and checks after every step that
 Used by vt/harness/c10.py on the substrate (P = FakePath) and by the stage-2 script on real files.
 """
 
-ACTS = ["commit", "commit_override", "interrupt_r+", "interrupt_a", "discard", "close_reopen_r", "interrupt_r", "refused_commit"]
+ACTS = ["commit", "commit_override", "interrupt_r+", "interrupt_a", "discard", "close_reopen_r", "interrupt_r", "refused_commit", "commit_override_empty"]
 
 
 def run(IH5MFRecord, IH5Manifest, IH5UBExtManifest, hashsum_file, P, opn, prefix, acts, tamper=False, notes=None):
@@ -70,14 +70,15 @@ def run(IH5MFRecord, IH5Manifest, IH5UBExtManifest, hashsum_file, P, opn, prefix
             if not check_open(r, label + " (reopened r+)", want):
                 return False
         writable = r.mode == "r+" and r._has_writable
-        if act in ("commit", "commit_override"):
+        if act in ("commit", "commit_override", "commit_override_empty"):
             if not writable:
                 r.create_patch()
             r["w%d" % n] = n
             if act == "commit":
                 r.commit_patch()
             else:
-                want = {"o": n}
+                # (an explicitly given empty dict overrides like any other value; only None inherits)
+                want = {"o": n} if act == "commit_override" else {}
                 r.commit_patch(manifest_exts=dict(want))
             if not check_commit(r, label, want):
                 return False
